@@ -736,6 +736,19 @@ def meshCoord (counts : List Nat) (d k : Nat) : Nat :=
 def axisValue (a : Axis) (cnt c : Nat) : Rat :=
   if cnt = 1 then a.min else a.min + (c : Rat) * (a.max - a.min) / ((cnt : Rat) - 1)
 
+/-- `axis.get("period", self.default_period)` -/
+def axisKey (dp : Option String) (a : Axis) : Option DKey :=
+  match a.period with
+  | some k => some k
+  | none => dp.map DKey.s
+
+/-- the array the axis values are laid on: the buffered one replicated `cell` times when it still
+has the prototype's size, or `cell * step` defaults -/
+def axisArray (buf : Buffer) (k : String × List Char) (cell step : Nat) (d : Val) : Vec :=
+  match alGet buf k with
+  | none => List.replicate (cell * step) d
+  | some x => if x.length = step then tile cell x else x
+
 /-- one axis: replicate (or create) the buffered array of its variable at its period, then lay
 the values on the indexed instance of every copy -/
 def layAxis (sys : Sys) (dp : Option String) (entKey : String) (step cell cnt : Nat) (multi : Bool)
@@ -744,7 +757,7 @@ def layAxis (sys : Sys) (dp : Option String) (entKey : String) (step cell cnt : 
   | none => .error .other
   | some var =>
     if var.entity ≠ entKey then .error .unmodelled else
-    match (match a.period with | some k => some k | none => dp.map DKey.s) with
+    match axisKey dp a with
     | none => .error .other
     | some k =>
       match canonKey k with
@@ -754,10 +767,7 @@ def layAxis (sys : Sys) (dp : Option String) (entKey : String) (step cell cnt : 
         match mapE (fun c => axisCast var (axisValue a cnt c)) coords with
         | .error e => .error e
         | .ok vals =>
-          let arr := match alGet buf (a.name, ck) with
-            | none => List.replicate (cell * step) var.default
-            | some x => if x.length = step then tile cell x else x
-          match strideSet arr a.index step vals with
+          match strideSet (axisArray buf (a.name, ck) cell step var.default) a.index step vals with
           | .error e => .error e
           | .ok arr' => .ok (alSet buf (a.name, ck) arr')
 
@@ -1001,15 +1011,21 @@ def buildFromVariables (sys : Sys) (dp : Option String) (si : SetInput) (kvs : L
       | .error e => .error e
       | .ok s2 => .ok ⟨defaultEnts sys count, s2⟩
 
+def isIntKey : DKey → Bool
+  | .i _ => true
+  | .s _ => false
+
+def isEntityKey (sys : Sys) (k : DKey) : Bool := isAxesKey k || keyIn sys.plurals k
+
 /-- `build_from_dict` : the three shapes (and the fall-through of repair C12d) -/
 def buildFromDict (sys : Sys) (dp : Option String) (si : SetInput) (d : Doc) : R Sim :=
   match d.asObj? with
   | none => .error .unmodelled
   | some kvs =>
-    if kvs.any (fun kv => match kv.1 with | .i _ => true | .s _ => false) then .error .unmodelled
+    if kvs.any (fun kv => isIntKey kv.1) then .error .unmodelled
     else if kvs.any (fun kv => keyIn (sys.singulars.map (·.1)) kv.1) then
       buildFromEntities sys dp si (explicitSingular sys kvs)
-    else if !kvs.isEmpty ∧ kvs.all (fun kv => isAxesKey kv.1 || keyIn sys.plurals kv.1) then
+    else if !kvs.isEmpty ∧ kvs.all (fun kv => isEntityKey sys kv.1) then
       buildFromEntities sys dp si kvs
     else if kvs.isEmpty ∨ kvs.any (fun kv => keyIn (sys.vars.map (·.name)) kv.1) then
       buildFromVariables sys dp si kvs
